@@ -299,7 +299,10 @@ example : ciWilson (constCrit 2 : Crit (RR (fun _ => 5))) (.lower ⟨0.95⟩) 10
   have h1 : ¬ (3 > 10) := by decide
   have h2 : ¬ (3 < 2) := by decide
   have h3 : ¬ (10 - 3 < 2) := by decide
-  simp only [ciWilson, h1, h2, h3, if_false, zValue, hp, if_true, Outcome.bind_ok, finishWilson, hhi]
+  have hhi' : fmax (⟨1⟩ : RR (fun _ => 5)) (NumOps.zero : RR (fun _ => 5)) = ⟨1⟩ := by
+    apply RR.ext'; rw [fmax_val]; simp
+  simp only [ciWilson, h1, h2, h3, if_false, zValue, hp, if_true, Outcome.bind_ok, finishWilson, hhi,
+    hhi']
   rw [new_ok _ _ (by simp)]; rfl
 
 /-! ### 6. the midpoint -/
